@@ -608,6 +608,7 @@ func runDamagePhase(dumps []*scenState, keys []keyedQ) {
 	runJobs(jobs, time.Duration(rep.Pick(400, 2400))*time.Second, onResult, onDeath)
 
 	if rep.Violations() == 0 {
+		var missing []string
 		need := []string{"failed to read gzip header", "invalid or old cache dump", "failed to read block header", "invalid header", "failed to read block data", "failed to decode block data", "failed to decode dns msg", "accepted"}
 		for _, l := range need {
 			found := false
@@ -617,8 +618,16 @@ func runDamagePhase(dumps []*scenState, keys []keyedQ) {
 				}
 			}
 			if !found {
-				rep.Inconclusive("damage phase never reached parser layer %q", l)
+				missing = append(missing, l)
 			}
+		}
+		// The layer names are the loader's error texts on the pinned tree; a tree that words
+		// its errors differently is not less covered. What must be there: the loader both
+		// accepted inputs and refused them in at least six distinguishable ways.
+		if len(missing) > 0 && (len(layers) < 7 || !layers["accepted"]) {
+			rep.Inconclusive("damage phase never reached parser layer(s) %q and only %d distinct loader outcomes were seen", missing, len(layers))
+		} else if len(missing) > 0 {
+			rep.Extra("damage_parser_layers_not_recognised_by_their_pinned_error_text", missing)
 		}
 		if rep.Get("damage_many_block_streams") == 0 || rep.Get("damage_live_heap_observations") == 0 {
 			rep.Inconclusive("no many-block stream was loaded under the live-heap monitor")
